@@ -35,6 +35,7 @@ def scan_function(fn: ast.AST, member_name: str, ordering_scope: bool, helpers=(
     out += _aliased_accumulators(fn)
     out += _zero_replaced_quantities(fn)
     out += _int_prealloc_stores(fn, helpers)
+    out += _quantity_truthiness(fn)
     for n in ast.walk(fn):
         if isinstance(n, ast.BinOp) and isinstance(n.op, ast.FloorDiv):
             out.append(("floor-division", u(n)[:70], "weighted counts and bases are fractional: integer division truncates them"))
@@ -63,6 +64,48 @@ def scan_function(fn: ast.AST, member_name: str, ordering_scope: bool, helpers=(
                 out.append(("unordered", u(n.iter)[:70], "iteration order of a set is arbitrary: the order built from it is not the specified one"))
             if isinstance(n, ast.Call) and u(n.func) in ("list", "tuple", "np.array", "np.fromiter") and n.args and isinstance(n.args[0], ast.Call) and u(n.args[0].func) in ("set", "frozenset"):
                 out.append(("unordered", u(n)[:70], "a set turned into a sequence has arbitrary order"))
+    return out
+
+
+import re as _re
+
+_QUANTITY_NAME = _re.compile(r"(^|_)(base|bases|margin|margins|table_base|table_margin|weighted_n|unweighted_n)$")
+
+
+def _quantity_truthiness(fn: ast.AST) -> List[Tuple[str, str, str]]:
+    """`bool(table_base)`, `if not self._base:`, `base and ...`: a base or margin of exactly ZERO is a defined value (an empty
+    table has base 0, not "no base"); absence is `None` and is tested with `is None`.  Reported for a bare name / attribute whose
+    last identifier is a base / margin word (calls such as `counts.any()` are questions about content and are left alone)."""
+    def quantity(e) -> bool:
+        if isinstance(e, ast.Attribute):
+            return bool(_QUANTITY_NAME.search(e.attr))
+        if isinstance(e, ast.Name):
+            return bool(_QUANTITY_NAME.search(e.id))
+        return False
+
+    tested = []
+
+    def operands(t):
+        if isinstance(t, ast.BoolOp):
+            for v in t.values:
+                yield from operands(v)
+        elif isinstance(t, ast.UnaryOp) and isinstance(t.op, ast.Not):
+            yield from operands(t.operand)
+        else:
+            yield t
+
+    for n in ast.walk(fn):
+        if isinstance(n, (ast.If, ast.While, ast.IfExp)):
+            tested += list(operands(n.test))
+        elif isinstance(n, ast.BoolOp):
+            tested += [x for v in n.values[:-1] for x in operands(v)]
+        elif isinstance(n, ast.Call) and isinstance(n.func, ast.Name) and n.func.id == "bool" and len(n.args) == 1:
+            tested += list(operands(n.args[0]))
+    out, seen = [], set()
+    for t in tested:
+        if quantity(t) and u(t) not in seen:
+            seen.add(u(t))
+            out.append(("quantity-truthiness", u(t)[:70], "a base / margin of exactly zero is a value (an empty table), not an absent one: the truth test treats it as undefined"))
     return out
 
 
@@ -324,6 +367,7 @@ def columns_scale_median_margin(self, c):
     return np.nan_to_num(c).astype("int64"), sorted(set(c)), c is None
 
 def pad(self, elements):
+    defined = bool(self._table_base)
     block = np.full((2, 3), 0)
     block[:, 0] = self._subtotal_column(elements)
     share = self._counts / (self._table_base or 1.0)
